@@ -79,6 +79,13 @@ func (g *pgen) exitPoint() *SExit {
 	return x
 }
 
+// exitPointIn is an exit point for a hand-built loop body (labels of the enclosing statements are not on the stack)
+func (g *pgen) exitPointIn() *SExit {
+	x := &SExit{Site: g.ns()}
+	x.Exits = append(x.Exits, Exit{Kind: xThrow, Val: 1000 + x.Site}, Exit{Kind: xReturn, Val: 2000 + x.Site}, Exit{Kind: xBreak}, Exit{Kind: xContinue})
+	return x
+}
+
 func (g *pgen) block(d int) []Stmt {
 	out := []Stmt{g.exitPoint()}
 	n := 1 + g.t.Draw(3)
@@ -286,6 +293,25 @@ func (g *pgen) stmt(d int) Stmt {
 			s.HasFinally = true
 			s.Finally = g.block(d)
 			g.use("try-finally")
+			if g.t.Draw(6) == 5 {
+				// a finally block in which a nested abrupt completion is cancelled by the finally block of an inner try
+				// statement (L: { try { <abrupt> } finally { break L } }): whatever was pending before must survive
+				g.use("cancelled-abrupt-in-finally")
+				l := g.newLabel()
+				var inner []Stmt
+				g.withLabel(lblInfo{name: l}, func() {
+					ex := g.exitPoint()
+					body := []Stmt{ex}
+					switch g.t.Draw(3) {
+					case 0:
+						body = append(body, &SReturn{E: &ENum{N: 3000 + ex.Site}})
+					case 1:
+						body = append(body, &SThrow{E: &ENum{N: 4000 + ex.Site}})
+					}
+					inner = []Stmt{&STry{Body: body, HasFinally: true, Finally: []Stmt{g.exitPoint(), &SBranch{Kind: xBreak, Label: l}}}}
+				})
+				s.Finally = append(s.Finally, &SBlock{Label: l, Body: inner})
+			}
 			if g.mode == "C09" && len(g.gvars) > 0 && g.t.Draw(3) == 0 {
 				// re-entrancy: a finally block (possibly running because of return()/throw()/iterator close) drives a generator
 				g.use("driver-op-in-finally")
@@ -381,6 +407,28 @@ func (g *pgen) function(name string, kind int, depth, budget int) *Func {
 		g.scratch = append(g.scratch, g.newVar("v"))
 	}
 	f.Body = g.block(depth)
+	if kind == fGen && g.mode == "C09" && len(g.gvars) > 0 {
+		// two recurring shapes of cooperating generators, on top of the random body: a RELAY that is suspended inside a
+		// for-of over another generator (not inside any try statement), and a FINALIZER whose finally block drives a
+		// generator (so that it runs re-entrantly while some other generator's return()/throw() closes it)
+		switch g.t.Draw(6) {
+		case 4:
+			g.use("relay-generator")
+			x := g.newVar("x")
+			f.Body = append(f.Body, &SForOf{Label: g.newLabel(), Var: x, Iter: g.iterable(1), Body: []Stmt{
+				g.exitPointIn(),
+				&SAssign{Var: g.scratch[0], E: &EYield{E: &EVar{Name: x}}},
+			}})
+		case 5:
+			g.use("finalizer-generator")
+			f.Body = append(f.Body, &STry{
+				Body:       []Stmt{&SAssign{Var: g.scratch[0], E: &EYield{E: &ENum{N: 3}}}, &SAssign{Var: g.scratch[1], E: &EYield{E: &ENum{N: 4}}}},
+				HasFinally: true,
+				Finally: []Stmt{&SAssign{Var: g.scratch[2], E: &EDrive{Site: g.ns(), Gen: g.gvars[g.t.Draw(len(g.gvars))], Op: g.t.Draw(3), Arg: &ENum{N: 0}}},
+					&SExit{Site: g.ns()}},
+			})
+		}
+	}
 	if kind == fGen && g.t.Draw(2) == 0 {
 		// make sure most generators yield at least twice at the top level
 		f.Body = append([]Stmt{&SAssign{Var: g.scratch[0], E: &EYield{E: &ENum{N: 1}}}}, f.Body...)
@@ -431,7 +479,51 @@ func genProgram(t *core.Track, mode string) (*Program, map[string]int) {
 		f := g.gens[t.Draw(len(g.gens))]
 		pr.GInit = append(pr.GInit, SAssign{Var: gv, E: &EGenCall{Fn: f.Name, Args: []Expr{&ENum{N: t.Draw(4)}}}})
 	}
+	// C09: in a sixth of the programs a wired pair of cooperating generators: GR is a relay suspended inside a for-of
+	// over GF (outside any try statement, or inside one), GF's finally block drives GR or GF re-entrantly. main then
+	// drives the pair. Everything else about the program stays random.
+	var pairDrive []Stmt
+	if mode == "C09" && t.Draw(6) == 5 {
+		g.use("wired-relay-finalizer-pair")
+		g.gvars = append(g.gvars, "GR", "GF")
+		pr.GVars = g.gvars
+		relay := &Func{Name: "grelay", Kind: fGen, Params: []string{"p"}}
+		g.fn = relay
+		g.labels = nil
+		g.scratch = []string{g.newVar("v"), g.newVar("v"), g.newVar("v")}
+		x := g.newVar("x")
+		loop := &SForOf{Label: g.newLabel(), Var: x, Iter: &EGVar{Name: "GF"}, Body: []Stmt{g.exitPointIn(), &SAssign{Var: g.scratch[0], E: &EYield{E: &EVar{Name: x}}}}}
+		if t.Draw(3) == 0 {
+			relay.Body = []Stmt{&STry{Body: []Stmt{loop}, HasFinally: true, Finally: []Stmt{&SExit{Site: g.ns()}}}}
+		} else {
+			relay.Body = []Stmt{loop}
+		}
+		relay.Body = append(relay.Body, &SReturn{E: &ENum{N: 55}})
+		fin := &Func{Name: "gfinal", Kind: fGen, Params: []string{"p"}}
+		g.fn = fin
+		g.scratch = []string{g.newVar("v"), g.newVar("v"), g.newVar("v")}
+		target := []string{"GR", "GF"}[t.Draw(2)]
+		fin.Body = []Stmt{&STry{
+			Body:       []Stmt{&SAssign{Var: g.scratch[0], E: &EYield{E: &ENum{N: 3}}}, &SAssign{Var: g.scratch[1], E: &EYield{E: &ENum{N: 4}}}},
+			HasFinally: true,
+			Finally:    []Stmt{&SExit{Site: g.ns()}, &SAssign{Var: g.scratch[2], E: &EDrive{Site: g.ns(), Gen: target, Op: t.Draw(3), Arg: &ENum{N: 0}}}},
+		}, &SReturn{E: &ENum{N: 66}}}
+		g.gens = append(g.gens, relay, fin)
+		pr.Funcs = append(pr.Funcs, relay, fin)
+		pr.GInit = append(pr.GInit, SAssign{Var: "GR", E: &EGenCall{Fn: "grelay", Args: []Expr{&ENum{N: 0}}}}, SAssign{Var: "GF", E: &EGenCall{Fn: "gfinal", Args: []Expr{&ENum{N: 0}}}})
+		for i, n := 0, 1+t.Draw(2); i < n; i++ {
+			pairDrive = append(pairDrive, &SExpr{E: &EDrive{Site: g.ns(), Gen: "GR", Op: dNext, Arg: &ENum{N: i}}})
+		}
+		for i, n := 0, 1+t.Draw(3); i < n; i++ {
+			pairDrive = append(pairDrive, &STry{Body: []Stmt{&SExpr{E: &EDrive{Site: g.ns(), Gen: []string{"GR", "GF"}[t.Draw(2)], Op: t.Draw(3), Arg: &ENum{N: 7}}}},
+				HasCatch: true, CatchVar: "ep", CatchSite: g.ns()})
+		}
+	}
 	main := g.function("main", fPlain, depth, 40)
+	if len(pairDrive) > 0 {
+		main.Locals = append(main.Locals, "ep")
+		main.Body = append(pairDrive, main.Body...)
+	}
 	if na > 0 {
 		var starts []Stmt
 		for _, a := range g.asyncs {
